@@ -304,6 +304,11 @@ pub proof fn ax_bit_len_pow2m1(k: nat)
     ensures bit_len(ipow(2, k) - 1) == k,
 { admit(); }
 
+pub proof fn ax_gcd_one(n: int)
+    requires n > 0,
+    ensures igcd(1, n) == 1,
+{ admit(); }
+
 /// gcd depends on the residue only
 pub proof fn ax_gcd_mod(a: int, n: int)
     requires n > 0,
